@@ -112,6 +112,15 @@ static bool setOpt(HolaOpts &o, const std::string &k, double v)
     else if (k == "wholeTreeRouting")
         o.wholeTreeRouting = v == 0 ? TreeRoutingType::STRICT : v == 1 ? TreeRoutingType::CORE_ATTACHMENT : TreeRoutingType::MONOTONIC;
     else if (k == "routingAbs_nudgingDistance") o.routingAbs_nudgingDistance = v;
+    else if (k == "treeLayoutScalar_nodeSep") o.treeLayoutScalar_nodeSep = v;
+    else if (k == "treeLayoutScalar_rankSep") o.treeLayoutScalar_rankSep = v;
+    else if (k == "routingScalar_crossingPenalty") o.routingScalar_crossingPenalty = v;
+    else if (k == "routingScalar_segmentPenalty") o.routingScalar_segmentPenalty = v;
+    else if (k == "treePlacement_favourCardinal") o.treePlacement_favourCardinal = v != 0;
+    else if (k == "treePlacement_favourExternal") o.treePlacement_favourExternal = v != 0;
+    else if (k == "treePlacement_favourIsolation") o.treePlacement_favourIsolation = v != 0;
+    else if (k == "nearAlignScalar_kinkWidth") o.nearAlignScalar_kinkWidth = v;
+    else if (k == "nearAlignScalar_scope") o.nearAlignScalar_scope = v;
     else return false;
     return true;
 }
